@@ -369,6 +369,9 @@ RECURSIVE Resolve(_, _)
 Resolve(s, rw) ==
     IF s = None THEN None
     ELSE IF \E p \in rw : p[1] = s THEN Resolve((CHOOSE p \in rw : p[1] = s)[2], rw) ELSE s
+\* the slots the fusion pass treats as externally defined: the private-input slots AFTER the de-duplication rewrite
+\* (optimizer/mod.rs resolves them through the rewrite map before handing them to MulAddFusion)
+ExtSlots == { Resolve(privrows[i], rewrite) : i \in DOMAIN privrows }
 
 ApplyRw(op, rw) ==
     [op EXCEPT !.a = Resolve(@, rw), !.b = Resolve(@, rw), !.c = Resolve(@, rw),
@@ -434,7 +437,7 @@ ScanDefs(os, i, defs, bw) ==
          IN
          IF op.k = "Const" THEN ScanDefs(os, i + 1, [defs EXCEPT ![op.out] = Def(i, "Const", None, None)], bw)
          ELSE IF op.k \in {"Mul", "Add"} THEN
-              LET back == (FixFuse /\ op.out \in Range(privrows)) \/ (defs[op.out].idx # None /\ defs[op.out].idx < i)
+              LET back == (FixFuse /\ op.out \in ExtSlots) \/ (defs[op.out].idx # None /\ defs[op.out].idx < i)
                   d1 == IF back THEN ins(defs, op.b, Def(i, "Other", None, None)) ELSE defs
                   bw1 == IF back THEN [bw EXCEPT ![op.b] = i] ELSE bw
                   d2 == ins(d1, op.out, IF op.k = "Mul" THEN Def(i, "Mul", op.a, op.b)
@@ -458,7 +461,7 @@ FuseResult(os, n) ==
         bw == sc.bw
         defIdx(s) == defs[s].idx
         isConst(s) == defs[s].kind = "Const"
-        isBack(i, s) == (FixFuse /\ s \in Range(privrows)) \/ (defIdx(s) # None /\ defIdx(s) < i)
+        isBack(i, s) == (FixFuse /\ s \in ExtSlots) \/ (defIdx(s) # None /\ defIdx(s) < i)
         \* try_fuse(mul_result, addend, out, add_idx) -> candidate or NoCand
         TryFuse(m, addend, out, ai) ==
             IF defs[m].kind # "Mul" THEN NoCand
@@ -467,7 +470,7 @@ FuseResult(os, n) ==
                  ELSE IF defIdx(addend) # None /\ defIdx(addend) >= ai THEN NoCand
                  ELSE IF bw[addend] # None /\ bw[addend] >= mi THEN NoCand
                  ELSE IF defIdx(mb) # None /\ defIdx(mb) >= mi THEN NoCand
-                 ELSE IF FixFuse /\ (WrittenElsewhere(os, m, mi) \/ mi >= ai \/ m \in Range(privrows)) THEN NoCand
+                 ELSE IF FixFuse /\ (WrittenElsewhere(os, m, mi) \/ mi >= ai \/ m \in ExtSlots) THEN NoCand
                  ELSE [mi |-> mi, addend |-> addend,
                        op |-> OAlu("MulAdd", ma, mb, addend, out, m)]
         Cand(ai) ==
@@ -500,7 +503,7 @@ FuseParts(os, n) ==
         bw == sc.bw
         defIdx(s) == defs[s].idx
         isConst(s) == defs[s].kind = "Const"
-        isBack(i, s) == (FixFuse /\ s \in Range(privrows)) \/ (defIdx(s) # None /\ defIdx(s) < i)
+        isBack(i, s) == (FixFuse /\ s \in ExtSlots) \/ (defIdx(s) # None /\ defIdx(s) < i)
         TryFuse(m, addend, out, ai) ==
             IF defs[m].kind # "Mul" THEN NoCand
             ELSE LET mi == defs[m].idx  ma == defs[m].a  mb == defs[m].b IN
@@ -508,7 +511,7 @@ FuseParts(os, n) ==
                  ELSE IF defIdx(addend) # None /\ defIdx(addend) >= ai THEN NoCand
                  ELSE IF bw[addend] # None /\ bw[addend] >= mi THEN NoCand
                  ELSE IF defIdx(mb) # None /\ defIdx(mb) >= mi THEN NoCand
-                 ELSE IF FixFuse /\ (WrittenElsewhere(os, m, mi) \/ mi >= ai \/ m \in Range(privrows)) THEN NoCand
+                 ELSE IF FixFuse /\ (WrittenElsewhere(os, m, mi) \/ mi >= ai \/ m \in ExtSlots) THEN NoCand
                  ELSE [mi |-> mi, addend |-> addend, op |-> OAlu("MulAdd", ma, mb, addend, out, m)]
         Cand(ai) ==
             LET op == os[ai] IN
